@@ -106,7 +106,15 @@ def main():
         },
         "engines": [
             {"name": "rvh", "path": "/verif/harness", "serves_properties": [c["property_id"] for c in checks],
-             "kind_free_text": "Rust harness: hand-written generators over a proptest-generated choice vector (shrinks structurally), proptest TestRunner per shard (16 shards, seeds derived from VERIF_SEED), explicit oracles per property, replay files"},
+             "kind_free_text": "Rust harness: hand-written generators over a proptest-generated choice vector (shrinks structurally), proptest TestRunner per shard (16 shards, seeds derived from VERIF_SEED), enumerated slices/sweeps, explicit oracles per property (ES reference model esref, differentials, models), crash supervisor with case journal, replay files; built in five variants (release, debug-assertions, prohibit-unsafe+index-positions, utf16, nightly pattern)"},
+            {"name": "cfgrun", "path": "/verif/cfgrun", "serves_properties": ["C15"],
+             "kind_free_text": "tiny runner (public API only) built once per regress feature set; six persistent processes per shard answer each generated case over a line protocol"},
+            {"name": "fuzzproj", "path": "/verif/fuzzproj", "serves_properties": ["C01", "C06", "C07"],
+             "kind_free_text": "cargo-fuzz / libFuzzer targets (nightly, ASan, debug assertions) that decode bytes into the harness's choice vector and run the same semantic oracle in-target; thorough tiers only"},
+            {"name": "sendsync_probe", "path": "/verif/sendsync_probe", "serves_properties": ["C19"],
+             "kind_free_text": "crate containing only Send + Sync assertions for Regex / Match / Error; failing to compile is the violation"},
+            {"name": "oracle", "path": "/verif/oracle", "serves_properties": ["C01", "C05", "C08", "C10", "C11", "C12", "C18"],
+             "kind_free_text": "committed Unicode-17 data exported from V8/ICU 78 (property sets, accepted names, simple case folding classes, string-property memberships) and a frozen corpus of V8 verdicts that re-validates the reference model on every run"},
         ],
         "checks": checks,
         "not_applicable": na,
